@@ -171,7 +171,7 @@ def run(tier):
         c["id"] = "c%d" % k
     nvalid = sum(1 for c in cases if c["kind"] == "valid")
     ncorrupt = len(cases) - nvalid
-    if ncorrupt < 300 or nvalid < (500 if tier == "quick" else 3000):
+    if ncorrupt < 300 or nvalid < (1000 if tier == "quick" else 3000):
         raise vlib.ToolError("MC_Config: %d valid and %d corrupted texts only" % (nvalid, ncorrupt))
     pinned = vlib.pinned_reproducers(PID)
     stats = new_stats()
@@ -185,7 +185,12 @@ def run(tier):
         if c["kind"] == "corrupt":
             ck[c["ck"]] = ck.get(c["ck"], 0) + 1
     rng = random.Random(vlib.seed())
+    if stats["drift_written_text_differs_from_Ser"] or stats["model_blind"] or stats["rejected_valid"]:
+        log("DRIFT: %d written texts differ from Ser(c), %d are unreadable by the model, %d texts of the schema were rejected by the code (no verdict; see evidence)"
+            % (stats["drift_written_text_differs_from_Ser"], stats["model_blind"], stats["rejected_valid"]))
+    open_ids = [f["id"] for f in rep.findings if f.get("status") == "open" and PID in f.get("properties", [])]
     rep.coverage.update({
+        "open_findings_not_reproduced (candidates for `fixed`)": [i for i in open_ids if i not in rep.known],
         "states": g1.distinct + g2.distinct + v.distinct,
         "transitions": g1.generated + g2.generated + v.generated,
         "traces_validated_against_impl": stats["observations"],
